@@ -461,6 +461,39 @@ fn probe_middle_bad<T: Sc>(rep: &mut Report) {
     rep.count("middle_bad_probes", 1);
 }
 
+/// C17: several closures misbehave at once and their length errors cancel (one too long, one too short):
+/// still an error value, for the functions and for the derivatives.
+fn probe_cancelling_lengths<T: Sc>(rep: &mut Report) {
+    for (d0, d1) in [(1isize, -1isize), (-2, 2), (3, -3), (-(NX as isize), NX as isize)] {
+        let len = move |x: &DVector<T>, d: isize| (x.len() as isize + d) as usize;
+        let x = DVector::from_fn(NX, |i, _| T::of64(i as f64));
+        let built = SeparableModelBuilder::<T>::new(&["a", "b"])
+            .function(&["a"], move |x: &DVector<T>, a: T| DVector::from_element(len(x, d0), a))
+            .partial_deriv("a", move |x: &DVector<T>, a: T| DVector::from_element(len(x, d1), a))
+            .function(&["b"], move |x: &DVector<T>, b: T| DVector::from_element(len(x, d1), b))
+            .partial_deriv("b", move |x: &DVector<T>, b: T| DVector::from_element(len(x, d0), b))
+            .function(&["a", "b"], |x: &DVector<T>, a: T, b: T| x.map(|v| v * a + b))
+            .partial_deriv("a", move |x: &DVector<T>, _a: T, _b: T| DVector::from_element(len(x, d0), T::one()))
+            .partial_deriv("b", |x: &DVector<T>, _a: T, _b: T| x.map(|_| T::one()))
+            .independent_variable(x)
+            .initial_parameters(vec![T::one(), T::of64(2.0)])
+            .build();
+        let Ok(m) = built else {
+            rep.tool_error("cancelling lengths probe: cannot build".into());
+            return;
+        };
+        let det = |what: &str, got: String| json!({"ctx": "two closures return vectors whose length errors cancel", "scalar": T::NAME, "d0": d0, "d1": d1, "what": what, "got": got});
+        let r = catch_unwind(AssertUnwindSafe(|| m.eval().map(|p| (p.nrows(), p.ncols())).map_err(|e| err_kind(&e))));
+        rep.check("C17", matches!(&r, Ok(Err(k)) if *k == "UnexpectedFunctionOutput"), 0.0, || det("eval(): an error value is due (two functions return vectors of the wrong length)", format!("{r:?}")));
+        for k in 0..2usize {
+            let r = catch_unwind(AssertUnwindSafe(|| m.eval_partial_deriv(k).map(|p| (p.nrows(), p.ncols())).map_err(|e| err_kind(&e))));
+            // d/da: functions 0 (d1) and 2 (d0) misbehave; d/db: function 1 (d0) misbehaves
+            rep.check("C17", matches!(&r, Ok(Err(kind)) if *kind == "UnexpectedFunctionOutput"), 0.0, || det(&format!("eval_partial_deriv({k}): an error value is due"), format!("{r:?}")));
+        }
+    }
+    rep.count("cancelling_length_probes", 1);
+}
+
 /// C17: a closure whose output has the wrong length only for SOME parameter values.  After any number
 /// of good evaluations the bad one is still reported as an error value, and the model recovers.
 fn probe_data_dependent_length<T: Sc>(rep: &mut Report) {
@@ -551,6 +584,8 @@ pub fn run(path: &str) -> Report {
     probe_overlap::<f32>(&mut total);
     probe_middle_bad::<f64>(&mut total);
     probe_middle_bad::<f32>(&mut total);
+    probe_cancelling_lengths::<f64>(&mut total);
+    probe_cancelling_lengths::<f32>(&mut total);
     probe_data_dependent_length::<f64>(&mut total);
     probe_data_dependent_length::<f32>(&mut total);
     total.count("sequences", groups.len() as u64);
